@@ -23,6 +23,6 @@ For each change k (k = 1..{n}) deliver in {out}/k/ :
   - demo.env : exactly three lines `PKG=<package directory relative to the repository root where the demo file is copied>`, `RUN=<regular expression for go test -run selecting the demo test(s)>`, `RACE=<1 if the demo must run under -race, else 0>`; the demo must be a single file named demo_test.go that works when copied into PKG under a different file name;
   - README.md : what the change is, why it breaks the property, what it needs in order to manifest, and the commands you ran with their observed results (existing tests still passing with the change; demo failing with / passing without).
 
-Build/test instructions for this sandbox: run go commands from {wt} with the environment `GOFLAGS=-mod=mod GOPROXY=off` (do NOT set GOTOOLCHAIN or GOSUMDB). Example: `cd {wt} && GOFLAGS=-mod=mod GOPROXY=off go test -vet=off -count=1 ./internal/config/`. The first build takes a while. Some packages have tests that need Docker or etcd and fail for environmental reasons regardless of your change (internal/bgp/frr needs Docker: run it with `-run 'TestNothing'` to only compile; in internal/k8s/controllers the test TestManager needs etcd - ignore that one); compare with the unchanged tree to tell. The packages whose tests matter are those containing the files you touch, plus `./controller/ ./speaker/ ./internal/...` where quick to run.
+Build/test instructions for this sandbox: run go commands from {wt} with the environment `GOFLAGS=-mod=mod GOPROXY=off` (do NOT set GOTOOLCHAIN or GOSUMDB). Example: `cd {wt} && GOFLAGS=-mod=mod GOPROXY=off go test -vet=off -count=1 ./internal/config/`. The first build takes a while. Never use `git stash` (the stash is shared with other worktrees of the same repository that other people are using right now): to toggle your change, save it with `git diff > file` and use `git apply file` / `git apply -R file`. Some packages have tests that need Docker or etcd and fail for environmental reasons regardless of your change (internal/bgp/frr needs Docker: run it with `-run 'TestNothing'` to only compile; in internal/k8s/controllers the test TestManager needs etcd - ignore that one); compare with the unchanged tree to tell. The packages whose tests matter are those containing the files you touch, plus `./controller/ ./speaker/ ./internal/...` where quick to run.
 
 After finishing, make sure the worktree is back at a clean HEAD (`git -C {wt} checkout -- . && git -C {wt} status --short` prints nothing except possibly your untracked demo files, which you should delete from the worktree) - the deliverables live in {out} only. Finally reply with a short summary: for each change one paragraph (files touched, idea, what it needs to manifest).""")
